@@ -24,7 +24,7 @@ use crate::proto::{Ctx, attrs};
 pub fn meta() -> Meta {
     Meta {
         level: "exploration",
-        rule: "bounded exhaustive. simplify: every circuit of the tiers g1 (1 gate, 0..3 inputs, <=3 literals, wide alphabet), g2i0w, g2i1c, g2i2k (2 gates, <=3 literals), g3i1l (3 gates, 1 input, <=2 literals, lean alphabet), oob tiers g1i1o/g2i1o; thorough adds g2i1w, g2i2w, g2i3c, g3i0c, g3i1c, g3i2c (<=2 literals), g3i2s (3 gates, 2 inputs, <=3 literals, slim alphabet), g3i1o. alphabets: core = {F,T,+-input,+-gate (self, forward, backward),+first unknown input}, wide = core+{-unknown,+-UNDEF}, lean = {T,+-input,+-gate}, known (k) = core without the unknown input, slim = {T,+i0,-i0,+i1,+next gate,-gate after next}, oob = core+{+-gate not present}; kinds and/or/xor; roots = each gate alone, all gates (mixed polarity), all gates reversed. A simplify case is non-trivial when the reachable fragment is acyclic, free of unknown inputs and the simplified circuit still has a gate. parsers: all token sequences up to length 5/4 (thorough 6/5) over a raw and a line-level alphabet per format x all parse-option combinations, sequences up to length 3 (4) also through load_file; all proper prefixes and all position x 10 byte (thorough 256 byte) substitutions of the crate's test inputs; header counts at MAX_CAPACITY. A parser case is non-trivial when the input is accepted (the accepted problem is then simplified and compared by truth table). aiger: every AIG of the listed (inputs, latches, ands, outputs) tiers with all and-gate operand pairs, latch next-state literals x 4 init forms and output literals, plus AIGER-1.9 sections and symbol tables, in both encodings; all non-trivial. Every enumerated case is distinct.",
+        rule: "bounded exhaustive. simplify: every circuit of the tiers g1 (1 gate, 0..3 inputs, <=3 literals, wide alphabet), g2i0w, g2i1c, g2i2k (2 gates, <=3 literals), g3i1l (3 gates, 1 input, <=2 literals, lean alphabet), oob tiers g1i1o/g2i1o; thorough adds g2i1w, g2i2w, g2i3c, g3i0c, g3i1c, g3i2c (<=2 literals), g3i2s (3 gates, 2 inputs, <=3 literals, slim alphabet), g3i1o. alphabets: core = {F,T,+-input,+-gate (self, forward, backward),+first unknown input}, wide = core+{-unknown,+-UNDEF}, lean = {T,+-input,+-gate}, known (k) = core without the unknown input, slim = {T,+i0,-i0,+i1,+next gate,-gate after next}, oob = core+{+-gate not present}; kinds and/or/xor; roots = each gate alone, all gates (mixed polarity), all gates reversed. A simplify case is non-trivial when the reachable fragment is acyclic, free of unknown inputs and the simplified circuit still has a gate. parsers: all token sequences up to length 5/4 (thorough 6/5) over a raw and a line-level alphabet per format x all parse-option combinations, sequences up to length 3 (4) also through load_file; all proper prefixes and all position x 10 byte (thorough 256 byte) substitutions of the crate's test inputs; header counts at MAX_CAPACITY. A parser case is non-trivial when the input is accepted (the accepted problem is then simplified and compared by truth table). aiger: every AIG of the listed (inputs, latches, ands, outputs) tiers with all and-gate operand pairs, latch next-state literals x 4 init forms and output literals, plus AIGER-1.9 sections and symbol tables (every subset of the symbol lines in every order, for 4 input/latch count shapes), in both encodings; all non-trivial. Every enumerated case is distinct.",
         assumptions: vec![
             "simplify oracle demands exactly the documented contract: Err(gate on a cycle) / Err(unknown input literal) for the reachable fragment, otherwise equal root functions through the gate map, the five normal-form conditions, topological order, result gates are images of reachable gates".into(),
             "an unknown input that is absorbed by a constant of the same AND/OR gate (x AND false) may be answered with Ok (the doc says 'depends on'); Ok is then accepted iff every root is definite under Kleene evaluation and equal to the result; such cases are counted under outcome ok_unknown_masked".into(),
@@ -1863,25 +1863,47 @@ fn run_aigeq_extras(ctx: &mut Ctx) {
     });
     ctx.group("aigeq:symbols", |ctx| {
         let mut st = AigStats { cases: 0, evals: 0, tally: Tally(BTreeMap::new()) };
-        let syms: [(char, usize, &str, &[u8]); 5] = [('i', 0, "x", b"i0 x\n"), ('i', 1, "y y", b"i1 y y\n"), ('l', 0, "q", b"l0 q\n"), ('l', 1, "~r", b"l1 ~r\n"), ('o', 0, "out", b"o0 out\n")];
         let comments: [&[u8]; 3] = [b"", b"c\n", b"c\nsome comment\n\xff\n"];
-        for mask in 0..(1u32 << syms.len()) {
-            for order_rev in [false, true] {
-                for com in comments {
-                    for init in 0..4u8 {
-                        let mut trailer = vec![];
-                        let mut names = vec![];
-                        let mut idxs: Vec<usize> = (0..syms.len()).filter(|k| mask & (1 << k) != 0).collect();
-                        if order_rev {
-                            idxs.reverse();
+        // (inputs, latches): equal numbers, more inputs than latches, more latches than inputs
+        for (ni, nl) in [(2usize, 2usize), (3, 1), (1, 2), (2, 1)] {
+            let mut syms: Vec<(char, usize, String, Vec<u8>)> = vec![];
+            for k in 0..ni {
+                let name = if k == 1 { "y y".to_string() } else { format!("x{k}") };
+                syms.push(('i', k, name.clone(), format!("i{k} {name}\n").into_bytes()));
+            }
+            for k in 0..nl {
+                let name = if k == 1 { "~r".to_string() } else { format!("q{k}") };
+                syms.push(('l', k, name.clone(), format!("l{k} {name}\n").into_bytes()));
+            }
+            syms.push(('o', 0, "out".into(), b"o0 out\n".to_vec()));
+            let and_lit = 2 * (ni + nl + 1);
+            for mask in 0..(1u32 << syms.len()) {
+                let chosen: Vec<usize> = (0..syms.len()).filter(|k| mask & (1 << k) != 0).collect();
+                // every order of the chosen symbol lines
+                let mut orders: Vec<Vec<usize>> = vec![];
+                permute(&chosen, &mut vec![], &mut orders);
+                for idxs in orders {
+                    for com in comments {
+                        for init in 0..4u8 {
+                            // the full cross product only for the forward and the reversed order
+                            let plain = idxs.windows(2).all(|w| w[0] < w[1]) || idxs.windows(2).all(|w| w[0] > w[1]);
+                            if !plain && (init != 0 || !com.is_empty()) {
+                                continue;
+                            }
+                            let mut trailer = vec![];
+                            let mut names = vec![];
+                            for &k in &idxs {
+                                trailer.extend_from_slice(&syms[k].3);
+                                names.push((syms[k].0, syms[k].1, syms[k].2.as_str()));
+                            }
+                            trailer.extend_from_slice(com);
+                            let mut latches = vec![(3, init)];
+                            if nl == 2 {
+                                latches.push((and_lit, 3 - init));
+                            }
+                            let aig = Aig { i: ni, latches, outputs: vec![and_lit + 1], ands: vec![(2 * (ni + 1), 2)], trailer, ..Default::default() };
+                            run_aig_case(ctx, &aig, &names, &mut st);
                         }
-                        for k in idxs {
-                            trailer.extend_from_slice(syms[k].3);
-                            names.push((syms[k].0, syms[k].1, syms[k].2));
-                        }
-                        trailer.extend_from_slice(com);
-                        let aig = Aig { i: 2, latches: vec![(3, init), (10, 3 - init)], outputs: vec![11], ands: vec![(8, 2)], trailer, ..Default::default() };
-                        run_aig_case(ctx, &aig, &names, &mut st);
                     }
                 }
             }
@@ -1952,5 +1974,19 @@ pub fn run(ctx: &mut Ctx) {
         "huge" => run_huge(ctx),
         "hugecase" => run_hugecase(parts[1].parse().unwrap()),
         _ => panic!("bad shard {shard}"),
+    }
+}
+
+fn permute(rest: &[usize], cur: &mut Vec<usize>, out: &mut Vec<Vec<usize>>) {
+    if rest.is_empty() {
+        out.push(cur.clone());
+        return;
+    }
+    for (k, &x) in rest.iter().enumerate() {
+        let mut r = rest.to_vec();
+        r.remove(k);
+        cur.push(x);
+        permute(&r, cur, out);
+        cur.pop();
     }
 }
